@@ -110,8 +110,41 @@ func genRecvFacts(repo string) (string, error) {
 	if err != nil {
 		return "", err
 	}
+	// the client's validation of the server's Acknowledge in uacp.Conn.Handshake:
+	//   if ack.ReceiveBufSize < minBufSize || ack.SendBufSize < minBufSize { … return error }
+	//   if hel.ReceiveBufSize != 0 && ack.ReceiveBufSize > hel.ReceiveBufSize { ack.ReceiveBufSize = hel.ReceiveBufSize }
+	// absent → 0 / false (the code before the repair)
+	ackMin, ackCapped, ackSeen := 0, false, "Handshake has no check of the Acknowledge buffer sizes"
+	if fsetC, conn, err := recvParse(repo, "uacp/conn.go"); err == nil {
+		minVal := 0
+		ast.Inspect(conn, func(n ast.Node) bool {
+			if vs, ok := n.(*ast.ValueSpec); ok && len(vs.Names) == 1 && vs.Names[0].Name == "minBufSize" && len(vs.Values) == 1 {
+				fmt.Sscan(recvSrc(fsetC, vs.Values[0]), &minVal)
+			}
+			return true
+		})
+		if hs := recvFunc(conn, "Conn", "Handshake"); hs != nil {
+			ast.Inspect(hs.Body, func(n ast.Node) bool {
+				is, ok := n.(*ast.IfStmt)
+				if !ok {
+					return true
+				}
+				c := recvSrc(fsetC, is.Cond)
+				body := recvSrc(fsetC, is.Body)
+				if c == "ack.ReceiveBufSize < minBufSize || ack.SendBufSize < minBufSize" && strings.Contains(body, "return errors.Errorf(") {
+					ackMin, ackSeen = minVal, c
+				}
+				if c == "hel.ReceiveBufSize != 0 && ack.ReceiveBufSize > hel.ReceiveBufSize" && body == "{ ack.ReceiveBufSize = hel.ReceiveBufSize }" {
+					ackCapped = true
+				}
+				return true
+			})
+		}
+	}
 	var sb strings.Builder
 	sb.WriteString("namespace Opcua.Gen.RecvFacts\n\n")
+	fmt.Fprintf(&sb, "/-- uacp.Conn.Handshake refuses an Acknowledge whose receive or send buffer size is below this value (`%s`; 0 = no check) -/\ndef ackMinBufSize : Nat := %d\n\n", ackSeen, ackMin)
+	fmt.Fprintf(&sb, "/-- … and never adopts a receive buffer size larger than the one of its own Hello (when that is not 0) -/\ndef ackRcvCappedByHello : Bool := %v\n\n", ackCapped)
 	fmt.Fprintf(&sb, "/-- `if %s` in SecureChannel.Receive: the zero guard is present -/\ndef chunkLimitZeroUnlimited : Bool := %v\n\n", cc, c0)
 	fmt.Fprintf(&sb, "/-- `if %s` in SecureChannel.Receive: the zero guard is present -/\ndef sizeLimitZeroUnlimited : Bool := %v\n\n", sc, s0)
 	sb.WriteString("end Opcua.Gen.RecvFacts\n")
